@@ -1008,6 +1008,31 @@ def _shared_rule(mod, name, **kw):
     return run
 
 
+def r29_find_prob_scaled(ctx, rule):
+    """Every probability the restore compares with the saved position is the FULL probability of a pre-terminal: base-structure
+    probability times the terminal probabilities.  _find_prob takes the base probability as its second argument; a call without it
+    (seed C08-fa gave the parameter a default of 1.0 and dropped the argument in is_parent_around) prices the parent 1/base_prob too
+    high, `parent <= saved position` fails for parents that are still queued, and their children are restored AND pushed again."""
+    n = 0
+    ok = True
+    for lname in ('is_parent_around', 'find_children', '_recursive_restore_prob_order', 'initalize_base_structures', '_are_you_my_child'):
+        q = PG + lname
+        fn = ctx.fn(q)
+        ctx.stats['functions'].add(q)
+        for c in calls_in(fn):
+            fp = find_prob_call(c)
+            if fp is None:
+                continue
+            n += 1
+            if fp[1] is None:
+                ok = False
+                ctx.bad(rule, q, 'probability without the base-structure probability: ' + U(c)[:60],
+                        'the saved position, the queue and the adoption test all speak of base probability x terminal probabilities; a '
+                        'probability that leaves the base factor out is compared with them as if it were on the same scale', None, c, firm=True)
+    if ctx.floor(rule, PGF, n, 4, '_find_prob calls in the queue / restore code') and ok:
+        ctx.ok(rule, PGF, 'all %d _find_prob calls of the queue and restore code pass the base probability' % n)
+
+
 def rules(tier):
     return [('C08.R1', r1_uuid_gate), ('C08.R2', r2_region_agreement), ('C08.R3', r3_canonical_descent),
             ('C08.R4', r4_saved_position), ('C08.R5', r5_sav_keys), ('C08.R6', c01.r5_successor),
@@ -1028,7 +1053,9 @@ def rules(tier):
             # C08-ea: save_session pickles cur_guess.target_level in place of the cracker's target_level
             ('C08.R27', _shared_rule('c15', 'r3_pickle_layout')),
             # fix 718673a: the save made on exhaustion must not name the last pre-terminal as still to do
-            ('C08.R28', r28_exhausted_session_restores_nothing)]
+            ('C08.R28', r28_exhausted_session_restores_nothing),
+            # C08-fa: _find_prob(new_parent) without base_prob in is_parent_around
+            ('C08.R29', r29_find_prob_scaled)]
 
 
 META = {
